@@ -516,3 +516,16 @@ def rule_writer_total(c, prog, R, fmt):
             pth = g.path_to(reach, fn.path)
             c.violation(R, f"{fn.path}|{s['macro']}" + (f"|{','.join(dead[1])}" if dead else ""), f"{fn.path}: `{s['macro']}!` is reachable from the {label} writer{miss}: a DOM holding such a value makes the writer panic instead of writing it or returning an EncodeError; reachable via {' -> '.join(core.short(p) for p in pth[-4:])}", core.loc(s["node"]), instance=inst)
     c.floor(R, n, 1, f"explicit panic macros reachable from the {label} encoder")
+
+
+def walk_inline(prog, node, module_prefix, depth=2, _seen=None):
+    """nodes of `node` and of the bodies of the functions of `module_prefix` it calls (transitively up to `depth`): what
+    an arm does is what it does itself or through a private helper it delegates to"""
+    _seen = _seen if _seen is not None else set()
+    for x in core.walk(node):
+        yield x
+        if depth > 0 and x.get("k") in ("Call", "MethodCall"):
+            h = prog.fns.get(core.callee(x) or "")
+            if h is not None and h.body is not None and h.path.startswith(module_prefix) and h.path not in _seen:
+                _seen.add(h.path)
+                yield from walk_inline(prog, h.body, module_prefix, depth - 1, _seen)
